@@ -4,28 +4,33 @@ C12 -- schema -> SDL -> schema is the identity; printing is history-independent.
 
 Two engines.
 
-E3 (round trip).  Every schema model with <= K features switched on (mc/gen/schemas.py) is built three
-ways -- from SDL written by our own emitter, through the py_gql.schema constructors, and through the
-constructors with code-only facets (enum internal values != names, python_names, a scalar with its own
-value type) -- and for every printer option set
+E3 (round trip).  Every schema model of the feature enumeration (mc/gen/schemas.py: <= K core features, every
+string / description content class alone and on every element kind) is built three ways -- from SDL
+written by our own emitter, through the py_gql.schema constructors, and through the constructors with
+code-only facets (enum internal values != names, python_names, a scalar with its own value type) -- and for
+every printer option set
 
-    t1 = s.to_string(opts)              # printed in a freshly forked child: first print call of its process
-    parse(t1, allow_type_system=True)
-    s2 = build_schema(t1);  sm_from_schema(s2) == sm_from_schema(s)  (modulo what opts leaves out)
-    t2 = s2.to_string(opts)             # again in a freshly forked child
-    t2 == t1
+    t1 = s.to_string(opts);  parse(t1, allow_type_system=True)
+    s2 = build_schema(t1);   sm_from_schema(s2) == sm_from_schema(s)  (modulo what opts leaves out)
+    t2 = s2.to_string(opts); t2 == t1
 
-The worker itself never calls the printer: every to_string call of this check happens in a child
-forked from a process that has never printed, so E3 verdicts do not depend on which cases a worker ran
-before, and history effects are reported by E2 only.
+These prints run in the worker process itself (no fork): history independence is decided by E2; a
+history-dependent printer can additionally show up here as round-trip violations.
 
 E2 (history exploration, the model-checking part).  State = the history of print calls made in a
-process.  From the pristine state every sequence of <= D actions is executed on the real
-implementation, one fresh forked child per sequence; an action is (schema i, option set j) from a menu
-of 2 schemas x 6 option sets; the same exploration is repeated after a graphql_blocking prelude and
-after a transform_schema prelude.  Invariant: the text returned by the k-th call equals the text the
-same action returns as the first call of a fresh process.  No state merging (the position of a
-module-level generator is not observable), so states == histories.
+process.  An action prints one schema of a *group* with one option set ("P"), or re-builds a schema of the
+group from its printed text and prints that ("R").  Groups: `base` (two unrelated schemas, 6 option sets) and
+one group per *homonym aspect*: two schemas with the same type / field / argument / directive names that
+differ in exactly one aspect (enum internal values behind equal python defaults, a default value, a
+description, a deprecation reason, a wrapper, member order, a directive's locations, root type names).
+Every sequence of the stated depth is executed on the real implementation in its own process and the
+invariant is checked on every call of it: the text returned by the k-th call equals the text the same
+action returns as the first print call of a fresh process.  Only maximal sequences are executed (their
+prefixes are checked on the way).  No state merging, so states == distinct histories.
+
+Pristine processes: each worker spawns (not forks) one small *zygote* interpreter that imports py_gql,
+builds the group schemas and never prints; per history the zygote forks one grandchild.  quick needs about
+2 700 forks of that small process.
 """
 import json
 import os
@@ -44,28 +49,38 @@ LEVEL_TEXT = (
     "structure is compared through an independent extractor. Exhaustive inside the bounds."
 )
 LEVEL_NOTE = (
-    "Trusts os.fork to give each history a process in which no print call happened (self-tested against a brand-new "
-    "interpreter), the extractor mc/ref/schema_model.sm_from_schema (public attributes only) and, for SDL-built inputs, "
+    "Trusts a freshly spawned interpreter that never prints (the zygote) and os.fork from it to give each history a process "
+    "in which no print call happened, the extractor mc/ref/schema_model.sm_from_schema (public attributes only) and, for SDL-built inputs, "
     "our own SDL emitter. py_gql.lang.parse is trusted to reject non-GraphQL text (C01)."
 )
 DESIGN_REF = "DESIGN.md section 6, C12"
 RULE = (
-    "E3 cases = (feature set with <= K features, route in sdl|code|code+) x option sets (full grid 3 indents x descriptions x "
-    "introspection x custom directives {False,True,['foo']} for the smallest sets, a 6-entry menu and a 3-entry menu for larger ones, see bounds); evaluation = one "
+    "E3 cases = (feature set, route in sdl|code|code+) x option sets (full grid 3 indents x descriptions x introspection x "
+    "custom directives {False,True,['foo']} for <= 1 feature, a 6-entry menu for 2, a 3-entry menu for 3); evaluation = one "
     "print/re-build/re-print of one (schema, options); non-trivial = distinct printed text on which both the printer and the "
-    "rebuilt extractor ran. E2 cases = (prelude, first action[, second action]); each explores every continuation up to depth D (thorough: one level deeper for histories that stay on one schema); state = "
-    "distinct history, transition = one to_string call, execution = one forked child."
+    "rebuilt extractor ran. E2 cases = (group, prelude, plan, first action); each executes every maximal sequence of the plan "
+    "(same-schema / cross-schema / all actions / default-option prints and rebuilds) in its own pristine process; state = "
+    "distinct history (prefix), transition = one to_string call, execution = one forked grandchild."
 )
 ASSUMPTIONS = [
     "descriptions have lines <= 60 characters (the property excludes re-wrapped lines)",
     "with include_descriptions=False descriptions are not compared; applied custom directives are not part of the structural comparison (the re-print comparison covers them)",
     "code-only facets (enum internal values, python_name) cannot survive SDL; after a round trip defaults are compared in their external form (enum names, field names)",
-    "schemas whose SDL form the builder cannot build at all (C11 findings: recursive input types, Int bounds) are exercised through the code routes only",
+    "schemas whose SDL form the builder cannot build at all are exercised through the code routes only",
     "history preludes: graphql_blocking of `{ a __typename }` and of the introspection query; transform_schema with an identity VisibilitySchemaTransform",
+    "round-trip prints happen in the worker process: on a tree whose printer is history-dependent their verdicts may depend on the cases the worker ran before (the history part does not)",
 ]
 BOUNDS = {
-    "quick": {"features_full_grid": 1, "features_menu6": 2, "features_menu3": 0, "history_depth": 3, "history_depth_one_schema": 3, "history_actions": 12, "preludes": 3},
-    "thorough": {"features_full_grid": 1, "features_menu6": 2, "features_menu3": 3, "history_depth": 3, "history_depth_one_schema": 4, "history_actions": 12, "preludes": 3},
+    "quick": {
+        "features_full_grid": 1, "features_menu6": 2, "features_menu3": 0,
+        "base_all_depth": 0, "base_same_schema_depth": 3, "base_cross_depth": 2, "preludes": 3,
+        "homonym_aspects": 8, "homonym_all_depth": 2, "homonym_default_depth": 3, "homonym_preludes": 1, "homonym_triples": False,
+    },
+    "thorough": {
+        "features_full_grid": 1, "features_menu6": 2, "features_menu3": 3,
+        "base_all_depth": 3, "base_same_schema_depth": 4, "base_cross_depth": 0, "preludes": 3,
+        "homonym_aspects": 8, "homonym_all_depth": 3, "homonym_default_depth": 0, "homonym_preludes": 1, "homonym_triples": True,
+    },
 }
 TIME_CAP = {"quick": 150, "thorough": 1500}
 
@@ -114,7 +129,7 @@ def opt_label(o):
 
 
 # ---------------------------------------------------------------------------------------------
-# forked children
+# pristine processes for histories: a small zygote, one grandchild per history
 
 
 def exc_where(e):
@@ -130,48 +145,91 @@ def exc_where(e):
     return ("@" + where) if where else ""
 
 
-def in_child(fn):
-    """Run fn() in a forked child; return its JSON-able result (or {"child_exc": ...})."""
-    r, w = os.pipe()
-    sys.stdout.flush()
-    sys.stderr.flush()
-    pid = os.fork()
-    if pid == 0:
-        code = 0
+def zygote_main():
+    """Runs in a brand-new interpreter (spawned, not forked, by each worker on first use).
+
+    Imports py_gql and this module, builds the schemas of a history group on first request (building never
+    prints) and then, for every request line on stdin, forks ONE grandchild that executes that history
+    and writes one JSON line to stdout.  The zygote itself never calls the printer, so every grandchild
+    starts with pristine module state; it stays small (nothing but py_gql and the menu schemas), which
+    keeps fork cheap where fork cost grows with the size of the process.
+    """
+    import logging
+    import warnings
+
+    logging.disable(logging.CRITICAL)
+    warnings.simplefilter("ignore")
+    sys.setrecursionlimit(3000)
+    out = os.fdopen(os.dup(1), "wb", buffering=0)
+    for line in sys.stdin:
+        line = line.strip()
+        if not line:
+            continue
+        req = json.loads(line)
+        if req.get("op") == "ping":
+            out.write((json.dumps({"ok": "pong", "pid": os.getpid()}) + "\n").encode())
+            continue
         try:
-            os.close(r)
+            schemas = group_schemas(req["g"])
+        except BaseException as e:  # noqa
+            out.write((json.dumps({"err": "group: %s: %s" % (type(e).__name__, str(e)[:200])}) + "\n").encode())
+            continue
+        pid = os.fork()
+        if pid == 0:
+            code = 0
             try:
-                res = {"ok": fn()}
-            except BaseException as e:  # noqa
-                res = {"child_exc": type(e).__name__, "msg": str(e)[:300], "where": exc_where(e)}
-            data = json.dumps(res).encode("utf-8", "surrogatepass")
-            with os.fdopen(w, "wb") as f:
-                f.write(data)
-        except BaseException:  # noqa
-            code = 3
-        finally:
-            os._exit(code)
-    os.close(w)
-    chunks = []
-    with os.fdopen(r, "rb") as f:
-        while True:
-            b = f.read(65536)
-            if not b:
-                break
-            chunks.append(b)
-    os.waitpid(pid, 0)
-    raw = b"".join(chunks)
-    if not raw:
-        return {"child_exc": "ChildDied", "msg": "no output from forked child"}
-    return json.loads(raw.decode("utf-8", "surrogatepass"))
+                try:
+                    res = {"ok": _execute_history(schemas, req)}
+                except BaseException as e:  # noqa
+                    res = {"err": "%s%s: %s" % (type(e).__name__, exc_where(e), str(e)[:200])}
+                out.write((json.dumps(res) + "\n").encode("utf-8", "surrogatepass"))
+            except BaseException:  # noqa
+                code = 3
+            finally:
+                os._exit(code)
+        _, status = os.waitpid(pid, 0)
+        if status != 0:
+            out.write((json.dumps({"err": "grandchild died with status %d" % status}) + "\n").encode())
 
 
-def print_in_child(schema, o):
-    """-> ("ok", text) | ("raises", ExcName, msg)"""
-    res = in_child(lambda: schema.to_string(**_kwargs(o)))
-    if "ok" in res:
-        return ("ok", res["ok"])
-    return ("raises", res["child_exc"] + res.get("where", ""), res["msg"])
+_Z = {}
+
+
+def _zygote():
+    import subprocess
+
+    z = _Z.get("z")
+    if z is not None and _Z.get("pid") == os.getpid() and z.poll() is None:
+        return z
+    z = subprocess.Popen(
+        [sys.executable, "-c", "from mc.checks.C12 import zygote_main; zygote_main()"],
+        stdin=subprocess.PIPE,
+        stdout=subprocess.PIPE,
+        env=dict(os.environ),
+        close_fds=True,
+    )
+    _Z["z"] = z
+    _Z["pid"] = os.getpid()
+    return z
+
+
+FORKS = [0]
+
+
+def zygote_request(req):
+    for attempt in (0, 1):
+        z = _zygote()
+        try:
+            z.stdin.write((json.dumps(req) + "\n").encode("utf-8", "surrogatepass"))
+            z.stdin.flush()
+            line = z.stdout.readline()
+            if line:
+                FORKS[0] += 1
+                return json.loads(line.decode("utf-8", "surrogatepass"))
+        except (BrokenPipeError, OSError):
+            pass
+        _Z.pop("z", None)
+    return {"err": "zygote unavailable"}
 
 
 # ---------------------------------------------------------------------------------------------
@@ -188,6 +246,16 @@ def _lib_errors():
 
         _LIB_ERRORS = (exc.SDLError, exc.SchemaError, exc.GraphQLSyntaxError, exc.InvalidValue)
     return _LIB_ERRORS
+
+
+def _print(schema, o):
+    """-> ("ok", text) | ("raises", ExcName@where, msg)   (in this process: see the module docstring)"""
+    try:
+        return ("ok", schema.to_string(**_kwargs(o)))
+    except RecursionError as e:
+        return ("raises", "RecursionError", str(e)[:200])
+    except Exception as e:  # noqa
+        return ("raises", type(e).__name__ + exc_where(e), str(e)[:300])
 
 
 def make_schema(features, route, applied_first=False):
@@ -264,7 +332,7 @@ def rt_eval(features, route, o, st=None):
     if st is not None:
         st.n("evaluations")
     rsfx = "/route=code+" if route == "code+" else ""
-    r1 = print_in_child(s, o)
+    r1 = _print(s, o)
     if r1[0] != "ok":
         return [("print-raises:%s%s" % (r1[1], rsfx), "to_string(%s) raised %s: %s" % (o, r1[1], r1[2]))]
     t1 = r1[1]
@@ -307,14 +375,21 @@ def rt_eval(features, route, o, st=None):
         cls = "roundtrip-differs:" + what
         if what.endswith(".default") or what.endswith(".has_default"):
             cls += M.default_detail(sm, path)
-        cls += rsfx
+        sfx = rsfx
+        if what.endswith(".description") or what.endswith(".reason"):
+            facet = M.text_change_facet(e, g)
+            if what.endswith(".description") and facet.split("/")[0] in ("lost:empty", "lost:blank", "blank-changed", "edge-whitespace", "inner-whitespace"):
+                # the layout of a description does not depend on the kind of element or on the route
+                cls, sfx = "roundtrip-differs:description", ""
+            cls += "/" + facet
+        cls += sfx
         if cls in seen:
             continue
         seen.add(cls)
         out.append((cls, "%s at %s: before %r after %r; printed: %r" % (what, path, e, g, t1[:500])))
     if bad2:
         out.append(("roundtrip-identity", "rebuilt schema has dangling references: %s" % bad2[:4]))
-    r2 = print_in_child(s2, o)
+    r2 = _print(s2, o)
     if r2[0] != "ok":
         out.append(("reprint-raises:%s%s" % (r2[1], rsfx), r2[2]))
     elif r2[1] != t1 and not out:
@@ -391,20 +466,150 @@ HIST_SCHEMAS = [
     {"features": ["k:input", "dep:enum", "dep:field", "dir:applied"], "applied_first": True},
 ]
 PRELUDES = ["none", "graphql", "transform"]
-ACTIONS = [[i, j] for i in range(len(HIST_SCHEMAS)) for j in range(len(MENU))]
+HM_MENU = [_opt(), _opt(custom=True), _opt(intro=True)]  # option sets used on homonym groups
 
 
-_HS = []
+def _lit_swap(lit, a, b):
+    if lit[0] == "enum":
+        return ["enum", b if lit[1] == a else a if lit[1] == b else lit[1]]
+    if lit[0] == "list":
+        return ["list", [_lit_swap(x, a, b) for x in lit[1]]]
+    if lit[0] == "obj":
+        return ["obj", [[n, _lit_swap(v, a, b)] for n, v in lit[1]]]
+    return lit
 
 
-def _hist_schemas():
-    """Built once per process (building never prints); forked children inherit never-printed copies."""
-    if not _HS:
-        for h in HIST_SCHEMAS:
-            s, _, note = make_schema(h["features"], "sdl", applied_first=h["applied_first"])
-            assert s is not None, note
-            _HS.append(s)
-    return _HS
+def _hbase():
+    """The schema every homonym differs from in exactly one aspect."""
+    E = lambda n: ["enum", n]  # noqa: E731
+    sm = M.sm_new()
+    sm["roots"]["query"] = "Query"
+    sm["directives"].append({"name": "mark", "description": None, "locations": ["FIELD_DEFINITION", "OBJECT"], "args": [M.mk_ival("why", "String", default=["str", "because"]), M.mk_ival("c", "Color", default=E("RED"))]})
+    sm["types"].append(M.mk_type("enum", "Color", values=["RED", "GREEN", "BLUE"]))
+    sm["types"].append(M.mk_type("input", "Opt", fields=[M.mk_ival("c", "Color", default=E("RED")), M.mk_ival("n", "Int", default=["int", "3"]), M.mk_ival("cs", "[Color]", default=["list", [E("RED"), E("GREEN")]])]))
+    sm["types"].append(M.mk_type("object", "UA", fields=[M.mk_field("a", "Int")]))
+    sm["types"].append(M.mk_type("object", "UB", fields=[M.mk_field("b", "Int")]))
+    sm["types"].append(M.mk_type("union", "U", members=["UA", "UB"]))
+    q = M.mk_type(
+        "object",
+        "Query",
+        description="Root type.",
+        fields=[
+            M.mk_field(
+                "a",
+                "[Int]",
+                description="A field.",
+                args=[
+                    M.mk_ival("x", "Int", default=["int", "3"]),
+                    M.mk_ival("c", "Color", default=E("RED")),
+                    M.mk_ival("cs", "[Color!]", default=["list", [E("RED"), E("BLUE")]]),
+                    M.mk_ival("o", "Opt", default=["obj", [["c", E("RED")], ["n", ["int", "1"]]]]),
+                ],
+                applied=[["mark", [["why", ["str", "x"]]]]],
+            ),
+            M.mk_field("old", "Int", deprecation={"reason": "use a"}),
+            M.mk_field("u", "U"),
+        ],
+    )
+    q["applied"].append(["mark", []])
+    sm["types"].append(q)
+    return sm
+
+
+def _hvariant(aspect):
+    """-> [(sm, route), (sm, route)]: two schemas with the same names that differ in ONE aspect."""
+    import copy
+
+    a = _hbase()
+    b = copy.deepcopy(a)
+    qa, qb = M.sm_type(a, "Query"), M.sm_type(b, "Query")
+    if aspect == "enum-values":
+        # same python defaults (internal value 1), different meaning: A: RED=1 GREEN=2, B: GREEN=1 RED=2
+        for sm, order in ((a, ["RED", "GREEN", "BLUE"]), (b, ["GREEN", "RED", "BLUE"])):
+            for v in M.sm_type(sm, "Color")["values"]:
+                v["value"] = order.index(v["name"]) + 1
+        for t in b["types"]:
+            for f in t.get("fields", []):
+                if f.get("default"):
+                    f["default"] = _lit_swap(f["default"], "RED", "GREEN")
+                for x in f.get("args", []):
+                    if x.get("default"):
+                        x["default"] = _lit_swap(x["default"], "RED", "GREEN")
+        for d in b["directives"]:
+            for x in d["args"]:
+                if x.get("default"):
+                    x["default"] = _lit_swap(x["default"], "RED", "GREEN")
+        return [(a, "code"), (b, "code")]
+    if aspect == "default":
+        qb["fields"][0]["args"][0]["default"] = ["int", "4"]
+        M.sm_type(b, "Opt")["fields"][1]["default"] = ["int", "4"]
+    elif aspect == "description":
+        qb["description"] = "Another root type."
+        qb["fields"][0]["description"] = "Another field."
+    elif aspect == "deprecation-reason":
+        qb["fields"][1]["deprecation"] = {"reason": "use u"}
+    elif aspect == "wrapper":
+        qb["fields"][0]["type"] = M.T("[Int!]")
+        qb["fields"][0]["args"][2]["type"] = M.T("[Color!]!")
+    elif aspect == "member-order":
+        M.sm_type(b, "U")["members"] = ["UB", "UA"]
+        qb["fields"] = [qb["fields"][1], qb["fields"][0], qb["fields"][2]]
+        M.sm_type(b, "Color")["values"].reverse()
+    elif aspect == "directive-locations":
+        b["directives"][0]["locations"] = ["OBJECT", "FIELD_DEFINITION", "ENUM_VALUE"]
+    elif aspect == "root-names":
+        G._rename(b, "Query", "Root")
+        b["schema_def"] = True
+    else:
+        raise ValueError(aspect)
+    return [(a, "sdl"), (b, "sdl")]
+
+
+ASPECTS = ["enum-values", "default", "description", "deprecation-reason", "wrapper", "member-order", "directive-locations", "root-names"]
+GROUPS = ["base"] + ["hm:" + a for a in ASPECTS]
+_GS = {}
+
+
+def group_schemas(g):
+    """Schemas of a history group, built once per process (building never prints)."""
+    from py_gql import build_schema
+
+    if g not in _GS:
+        out = []
+        if g == "base":
+            for h in HIST_SCHEMAS:
+                s, _, note = make_schema(h["features"], "sdl", applied_first=h["applied_first"])
+                assert s is not None, note
+                out.append(s)
+        elif g.startswith("hm3:"):
+            x, y = g[4:].split("+")
+            out = [group_schemas("hm:" + x)[0], group_schemas("hm:" + x)[1], group_schemas("hm:" + y)[1]]
+        else:
+            for sm, route in _hvariant(g[3:]):
+                if route == "sdl":
+                    out.append(build_schema(M.sm_to_sdl(sm)))
+                else:
+                    s = M.sm_to_code(sm)
+                    s.validate()
+                    out.append(s)
+        _GS[g] = out
+    return _GS[g]
+
+
+def group_menu(g):
+    return MENU if g == "base" else HM_MENU
+
+
+def act_label(g, a):
+    if len(a) == 2 and not isinstance(a[0], str):  # witnesses recorded before the group format
+        a = ["P", a[0], a[1]]
+    if a[0] == "R":
+        return "rebuilt"
+    return opt_label(group_menu(g)[a[2]])
+
+
+def _norm_act(a):
+    return ["P", a[0], a[1]] if (len(a) == 2 and not isinstance(a[0], str)) else list(a)
 
 
 def _run_prelude(prelude, schemas):
@@ -422,100 +627,202 @@ def _run_prelude(prelude, schemas):
             transform_schema(s, VisibilitySchemaTransform())
 
 
-def run_history(prelude, seq):
-    """Execute one history in a fresh forked child -> list of outputs (text or ["raises", exc])."""
+def _execute_history(schemas, req):
+    """(in the grandchild) run the prelude, then every action; -> list of texts / ["raises", ...]"""
+    from py_gql import build_schema
 
-    schemas = _hist_schemas()
-
-    def body():
-        _run_prelude(prelude, schemas)
-        outs = []
-        for i, j in seq:
-            try:
-                outs.append(schemas[i].to_string(**_kwargs(MENU[j])))
-            except Exception as e:  # noqa
-                outs.append(["raises", type(e).__name__, str(e)[:200]])
-        return outs
-
-    res = in_child(body)
-    if "ok" not in res:
-        return None, res
-    return res["ok"], None
+    menu = group_menu(req["g"])
+    _run_prelude(req["prelude"], schemas)
+    outs = []
+    for a in req["seq"]:
+        try:
+            if a[0] == "P":
+                outs.append(schemas[a[1]].to_string(**_kwargs(menu[a[2]])))
+            else:  # "R": the schema rebuilt from the (pristine) default text of schema i, printed with defaults
+                outs.append(build_schema(req["texts"][str(a[1])]).to_string(**_kwargs(menu[0])))
+        except Exception as e:  # noqa
+            outs.append(["raises", type(e).__name__ + exc_where(e), str(e)[:200]])
+    return outs
 
 
 _REF = {}
 
 
-def reference(action):
-    key = tuple(action)
+def run_history(g, prelude, seq):
+    """Execute one history in a pristine grandchild of the zygote -> (outputs | None, error | None)."""
+    seq = [_norm_act(a) for a in seq]
+    req = {"g": g, "prelude": prelude, "seq": seq}
+    need = sorted({a[1] for a in seq if a[0] == "R"})
+    if need:
+        req["texts"] = {}
+        for i in need:
+            t = reference(g, ["P", i, 0])
+            if not isinstance(t, str):
+                return None, {"err": "no reference text for schema %d" % i}
+            req["texts"][str(i)] = t
+    res = zygote_request(req)
+    if "ok" not in res:
+        return None, res
+    return res["ok"], None
+
+
+def reference(g, action):
+    """What the action prints as the FIRST print call of a fresh process."""
+    action = _norm_act(action)
+    key = (g, tuple(action))
     if key not in _REF:
-        outs, err = run_history("none", [list(action)])
+        outs, err = run_history(g, "none", [action])
         _REF[key] = outs[0] if outs is not None else ["harness", err]
     return _REF[key]
 
 
-def _classify_history(prelude, seq, k):
+def _rel(a, b):
+    return "same-schema" if a[1] == b[1] else "other-schema"
+
+
+def _hist_class(g, ctx, lab, rel=None):
+    if g == "base":
+        return "history:%s->%s" % (ctx, lab)  # (format of the first version of this check: fixed findings replay against it)
+    return "history/homonym=%s:%s%s->%s" % (g.split(":", 1)[1], (rel + ":") if rel else "", ctx, lab)
+
+
+def _classify_history(g, prelude, seq, k):
     """Mechanical minimisation: smallest earlier context that makes call k differ."""
+    seq = [_norm_act(a) for a in seq]
     act = seq[k]
-    lab = opt_label(MENU[act[1]])
-    # a single earlier call, without the prelude
-    for j in range(k):
-        outs, _ = run_history("none", [seq[j], act])
-        if outs is not None and outs[1] != reference(act):
-            return "history:%s->%s" % (opt_label(MENU[seq[j][1]]), lab)
+    lab = act_label(g, act)
+    ref = reference(g, act)
+    for j in range(k):  # a single earlier call, without the prelude
+        outs, _ = run_history(g, "none", [seq[j], act])
+        if outs is not None and outs[1] != ref:
+            return _hist_class(g, act_label(g, seq[j]), lab, _rel(seq[j], act))
     if prelude != "none":
-        outs, _ = run_history(prelude, [act])
-        if outs is not None and outs[0] != reference(act):
-            return "history:after-%s->%s" % (prelude, lab)
+        outs, _ = run_history(g, prelude, [act])
+        if outs is not None and outs[0] != ref:
+            return _hist_class(g, "after-" + prelude, lab)
         for j in range(k):
-            outs, _ = run_history(prelude, [seq[j], act])
-            if outs is not None and outs[1] != reference(act):
-                return "history:after-%s+%s->%s" % (prelude, opt_label(MENU[seq[j][1]]), lab)
-    return "history:%s->%s" % ("+".join(opt_label(MENU[a[1]]) for a in seq[:k]), lab)
+            outs, _ = run_history(g, prelude, [seq[j], act])
+            if outs is not None and outs[1] != ref:
+                return _hist_class(g, "after-%s+%s" % (prelude, act_label(g, seq[j])), lab, _rel(seq[j], act))
+    return _hist_class(g, "+".join(act_label(g, a) for a in seq[:k]), lab)
 
 
-def hist_eval(prelude, seq, st=None):
-    """Run one history, compare every call with the pristine reference. -> [(class, detail, k)]"""
-    outs, err = run_history(prelude, seq)
+def hist_eval(g, prelude, seq, st=None, seen_prefixes=None):
+    """Run one (maximal) history; every call must print what it prints as the first call of a fresh process.
+    -> [(detail, k)] for the first differing call (if its prefix was not reported before)."""
+    seq = [_norm_act(a) for a in seq]
+    outs, err = run_history(g, prelude, seq)
     if st is not None:
         st.n("executions")
-        st.n("states")
+        st.n("forks")
         st.n("transitions", len(seq))
         st.n("evaluations", len(seq))
     if outs is None:
-        return [("history-harness:%s" % err.get("child_exc"), str(err), 0)]
-    res = []
+        return [("harness: %s" % err, -1)]
     for k, o in enumerate(outs):
-        ref = reference(seq[k])
+        ref = reference(g, seq[k])
         if st is not None:
             st.outcome(json.dumps(o))
         if o != ref:
+            pre = json.dumps(seq[: k + 1])
+            if seen_prefixes is not None:
+                if pre in seen_prefixes:
+                    return []
+                seen_prefixes.add(pre)
             if isinstance(o, list):
                 detail = "call %d raised %s" % (k, o[1:])
             else:
-                detail = "call %d (%s on schema %d) after %s: pristine %r, now %r" % ((k, opt_label(MENU[seq[k][1]]), seq[k][0], [opt_label(MENU[a[1]]) for a in seq[:k]]) + _first_diff(ref if isinstance(ref, str) else "", o))
-            res.append((None, detail, k))
-            break  # later calls of this history are reported by the histories that extend the prefix
-    return res
+                detail = "group %s: call %d (%s on schema %d) after %s: as first call of a fresh process %r, now %r" % (
+                    (g, k, act_label(g, seq[k]), seq[k][1], ["%s@%d" % (act_label(g, a), a[1]) for a in seq[:k]]) + _first_diff(ref if isinstance(ref, str) else "", o)
+                )
+            return [(detail, k)]
+    return []
+
+
+def group_actions(g, kind):
+    n = len(group_schemas_count(g))
+    menu = group_menu(g)
+    if kind == "all":
+        acts = [["P", i, j] for i in range(n) for j in range(len(menu))]
+        if g != "base":
+            acts += [["R", i] for i in range(n)]
+        return acts
+    if kind == "default":  # default-option prints and rebuilds only
+        return [["P", i, 0] for i in range(n)] + [["R", i] for i in range(n)]
+    raise ValueError(kind)
+
+
+def group_schemas_count(g):
+    return range(3 if g.startswith("hm3:") else 2)
+
+
+def _maximal(first, depth, acts, pred=None):
+    """all sequences of exactly `depth` actions starting with `first` (prefixes are covered by them)."""
+
+    def rec(seq):
+        if len(seq) == depth:
+            yield seq
+            return
+        for a in acts:
+            if pred is None or pred(seq, a):
+                for x in rec(seq + [a]):
+                    yield x
+
+    return rec([first])
+
+
+def hist_sequences(case):
+    g, plan, first = case["g"], case["plan"], case["first"]
+    if plan == "same-schema":  # every sequence of `depth` prints on the schema of the first action
+        acts = [a for a in group_actions(g, "all") if a[0] == "P"]
+        return _maximal(first, case["depth"], acts, lambda seq, a: a[1] == first[1])
+    if plan == "all":
+        return _maximal(first, case["depth"], group_actions(g, "all"))
+    if plan == "cross":  # sequences whose consecutive actions are on different schemas
+        return _maximal(first, case["depth"], group_actions(g, "all"), lambda seq, a: a[1] != seq[-1][1])
+    if plan == "default":
+        return _maximal(first, case["depth"], group_actions(g, "default"))
+    raise ValueError(plan)
 
 
 # ---------------------------------------------------------------------------------------------
 # cases
 
 
-def cases(tier):
+def hist_cases(tier):
     b = BOUNDS[tier]
-    # E2 first: few cases, each heavy -- spreads over the workers
+    out = []
+
+    def add(g, prelude, plan, depth, kind):
+        for a in group_actions(g, kind):
+            if plan == "same-schema" and a[0] != "P":
+                continue
+            out.append({"kind": "hist", "g": g, "prelude": prelude, "plan": plan, "depth": depth, "first": a})
+
     for prelude in PRELUDES:
-        for a in ACTIONS:
-            yield {"kind": "hist", "prelude": prelude, "first": a, "depth": b["history_depth"], "same_schema_from": b["history_depth"]}
-    if b["history_depth_one_schema"] > b["history_depth"]:
-        # one level deeper, but only histories that stay on one schema
-        for prelude in PRELUDES:
-            for a in ACTIONS:
-                for a2 in ACTIONS:
-                    if a2[0] == a[0]:
-                        yield {"kind": "hist", "prelude": prelude, "first": a, "second": a2, "depth": b["history_depth_one_schema"], "same_schema_from": 0}
+        if b["base_all_depth"]:
+            add("base", prelude, "all", b["base_all_depth"], "all")
+        if b["base_same_schema_depth"] > b["base_all_depth"]:
+            add("base", prelude, "same-schema", b["base_same_schema_depth"], "all")
+        if b["base_cross_depth"] > b["base_all_depth"]:
+            add("base", prelude, "cross", b["base_cross_depth"], "all")
+    for asp in ASPECTS:
+        g = "hm:" + asp
+        for prelude in PRELUDES[: b["homonym_preludes"]]:
+            add(g, prelude, "all", b["homonym_all_depth"], "all")
+        if b["homonym_default_depth"] > b["homonym_all_depth"]:
+            add(g, "none", "default", b["homonym_default_depth"], "default")
+    if b["homonym_triples"]:
+        for x, y in TRIPLES:
+            add("hm3:%s+%s" % (x, y), "none", "default", 3, "default")
+    return out
+
+
+TRIPLES = [(ASPECTS[i], ASPECTS[j]) for i in range(1, len(ASPECTS)) for j in range(i + 1, len(ASPECTS))]
+
+
+def rt_cases(tier):
+    b = BOUNDS[tier]
     top = max(b["features_full_grid"], b["features_menu6"], b["features_menu3"])
     for fs in G.feature_sets(top):
         if len(fs) <= b["features_full_grid"]:
@@ -528,36 +835,49 @@ def cases(tier):
             yield {"kind": "rt", "features": fs, "route": route, "grid": grid}
 
 
-def _extend(seq, depth, same_schema=False, min_len=1):
-    if len(seq) >= min_len:
-        yield seq
-    if len(seq) < depth:
-        for a in ACTIONS:
-            if same_schema and a[0] != seq[0][0]:
-                continue
-            for x in _extend(seq + [a], depth, same_schema, min_len):
-                yield x
+def cases(tier):
+    """history cases spread evenly between the round-trip cases (a time cap must not starve either part)."""
+    h = hist_cases(tier)
+    r = list(rt_cases(tier))
+    # one history case every `period` cases; the period is a prime so that, whatever the number of workers
+    # (cases are sharded by index modulo that number), history cases do not pile up on one worker
+    period = max(2, (len(r) + len(h)) // max(1, len(h)))
+    while any(period % d == 0 for d in range(2, int(period ** 0.5) + 1)):
+        period -= 1
+    hi = ri = n = 0
+    while hi < len(h) or ri < len(r):
+        if (n % period == 0 and hi < len(h)) or ri >= len(r):
+            yield h[hi]
+            hi += 1
+        else:
+            yield r[ri]
+            ri += 1
+        n += 1
 
 
 def check_case(case, st):
     out = []
     if case["kind"] == "hist":
         st.n("tag:history-case")
-        found = {}
-        if "second" in case:
-            # only the histories longer than the all-schema bound (the shorter ones are covered there)
-            it = _extend([case["first"], case["second"]], case["depth"], same_schema=True, min_len=case["depth"])
-        else:
-            it = _extend([case["first"]], case["depth"])
-        for seq in it:
+        st.n("group:" + case["g"].split(":")[0])
+        g, prelude = case["g"], case["prelude"]
+        found, seen, states = {}, set(), set()
+        f0 = FORKS[0]
+        for seq in hist_sequences(case):
             if st.out_of_time():
                 break
-            for _, detail, k in hist_eval(case["prelude"], seq, st):
-                # classify once per (labels of the history) to keep the number of extra forks small
-                key = (tuple(opt_label(MENU[a[1]]) for a in seq[: k + 1]), case["prelude"])
+            for i in range(1, len(seq) + 1):
+                states.add(json.dumps(seq[:i]))
+            for detail, k in hist_eval(g, prelude, seq, st, seen):
+                if k < 0:
+                    out.append(("history-harness", {"kind": "hist", "g": g, "prelude": prelude, "seq": seq, "k": 0}, detail))
+                    continue
+                key = (tuple((act_label(g, a), a[1] == seq[k][1]) for a in seq[: k + 1]), prelude)
                 if key not in found:
-                    found[key] = _classify_history(case["prelude"], seq, k)
-                out.append((found[key], {"kind": "hist", "prelude": case["prelude"], "seq": seq, "k": k}, detail))
+                    found[key] = _classify_history(g, prelude, seq, k)
+                out.append((found[key], {"kind": "hist", "g": g, "prelude": prelude, "seq": seq[: k + 1], "k": k}, detail))
+        st.n("states", len(states))
+        st.n("zygote_forks", FORKS[0] - f0)
         st.mx("history_depth", case["depth"])
         return out
     st.n("tag:roundtrip-case")
@@ -578,11 +898,11 @@ def check_case(case, st):
 
 def replay(witness):
     if witness["kind"] == "hist":
-        res = hist_eval(witness["prelude"], witness["seq"], None)
+        g = witness.get("g", "base")
         out = []
-        for _, detail, k in res:
-            if k == witness.get("k", k):
-                out.append((_classify_history(witness["prelude"], witness["seq"], k), detail))
+        for detail, k in hist_eval(g, witness["prelude"], witness["seq"], None):
+            if k >= 0 and k == witness.get("k", k):
+                out.append((_classify_history(g, witness["prelude"], witness["seq"], k), detail))
         return out
     return rt_eval(witness["features"], witness["route"], witness["opt"], None)
 
@@ -593,14 +913,15 @@ def replay(witness):
 def selftest():
     M.selftest()
     G.selftest()
-    # forked children are as pristine as a brand-new interpreter
-    import subprocess
-
-    code = (
-        "import json,sys\n"
-        "from mc.checks import C12\n"
-        "s=C12._hist_schemas()[1]\n"
-        "sys.stdout.write(json.dumps(s.to_string(**C12._kwargs(C12.MENU[1]))))\n"
-    )
-    fresh = json.loads(subprocess.check_output([sys.executable, "-c", code], env=dict(os.environ)).decode())
-    assert reference([1, 1]) == fresh, "forked child differs from a fresh interpreter (custom directives)"
+    # the zygote answers, is a different (fresh) process, and a history run through it is reproducible
+    r = zygote_request({"op": "ping"})
+    assert r.get("ok") == "pong" and r.get("pid") != os.getpid(), r
+    a = run_history("base", "none", [["P", 1, 1], ["P", 1, 0]])
+    b = run_history("base", "none", [["P", 1, 1], ["P", 1, 0]])
+    assert a[0] is not None and a == b, (a, b)
+    # homonyms really are homonyms: same type names, different first-call text
+    for asp in ASPECTS:
+        s = group_schemas("hm:" + asp)
+        assert reference("hm:" + asp, ["P", 0, 0]) != reference("hm:" + asp, ["P", 1, 0]), asp
+        if asp != "root-names":
+            assert sorted(s[0].types) == sorted(s[1].types), asp
